@@ -90,8 +90,21 @@ def run_cal(desc, ctx, out):
     folder = ctx.scratch() / "ck"
     model = CG.model_for(cfg)
     wit = {"config": cfg, "ops": []}
-    pre = str(rng.choice(["empty", "empty", "other_more", "other_fewer", "other_shape", "other_same"]))
-    if pre != "empty":
+    pre = str(rng.choice(["empty", "empty", "other_more", "other_fewer", "other_shape", "other_same", "same_config_other_model", "same_config_other_model"]))
+    if pre == "same_config_other_model":
+        # an earlier, shorter attempt with the same configuration and seed whose model behaved differently in part of the space:
+        # some stored series rows coincide with the new run's, others do not
+        from vlib import models as MM
+
+        try:
+            with quiet():
+                other = CG.build_calibrator(cfg, folder=str(folder), model=MM.ALT[cfg["D"]])
+                other.calibrate(int(rng.integers(1, 3)))
+            c["prepopulated_folder"] = c.get("prepopulated_folder", 0) + 1
+            c["prepopulated_same_config_other_model"] = c.get("prepopulated_same_config_other_model", 0) + 1
+        except Exception:  # noqa: BLE001
+            pre = "empty"
+    elif pre != "empty":
         cfg2 = CG.gen_config(rng, kinds=G.HISTORY_FREE, n_samplers=2, max_bs=3)
         if pre in ("other_more", "other_fewer", "other_same"):
             cfg2.update(D=cfg["D"], N=cfg["N"], E=cfg["E"], sim_length_differs=False)
